@@ -40,6 +40,17 @@ Definition add_output_prefix (u : unf) (p : N) : unf :=
                  (map (fun t => mkTrans (t_inp t) (p + t_out t) (t_addr t)) (n_trans (u_node u))))
         (match u_last u with Some (i, o) => Some (i, p + o) | None => None end).
 
+(* find_common_prefix (no outputs): longest i with stack[j].last.inp = bs[j] for all j < i *)
+Fixpoint fcp0 (stack : list unf) (bs : key) : nat :=
+  match bs, stack with
+  | b :: bs', u :: rest =>
+    match u_last u with
+    | Some (i, _) => if i =? b then S (fcp0 rest bs') else O
+    | None => O
+    end
+  | _, _ => O
+  end.
+
 (* find_common_prefix_and_set_output. `self.stack[i]` with i out of range panics. *)
 Fixpoint fcp (stack : list unf) (bs : key) (out : N) : res (list unf * nat * N) :=
   match bs with
@@ -189,6 +200,9 @@ Definition insert_output (b : builder) (bs : key) (out : option N) : builder * r
     | Panic => (b, Panic)
     end
   | _ =>
+    (* adding the previous key again is a no-op and moves no outputs *)
+    if (match out with None => true | Some _ => false end) && Nat.eqb (fcp0 (b_stack b) bs) (length bs)
+    then (b, Ok tt) else
     match fcp (b_stack b) bs (match out with Some o => o | None => 0 end) with
     | Ok (st, p, o) =>
       let b1 := with_stack b st in
